@@ -23,8 +23,9 @@ RULE = (
     "date (%Y%m%d in any order / %F / %Y %j), time (%H %M %S / %X) and zone "
     "(%z) once each, or %s alone or next to up to three other directives: "
     "strptime(strftime(p, f), f) must have p's "
-    "instant (and offset unless %s). kind 'partial': formats with %Y but "
-    "lower-order parts or the zone omitted default to the start of the period"
+    "instant (and offset unless %s). kind 'partial': formats with "
+    "lower-order parts, the zone or (one case in six) the year itself omitted "
+    "default to the start of the period (year 0000)"
     " / the parser's assumed or (faked) local zone. kind 'refuse': any other "
     "%-word directive raises StrftimeSyntaxError from strftime and strptime. "
     "Non-trivial = non-calendar representation, civil year != stored year, "
@@ -205,7 +206,9 @@ def check_case(case):
                           if "%z" in fmt else tuple(cfg["assumed"])
                           if cfg["assumed"] is not None else local)
                     has = lambda k: ("%" + k) in fmt    # noqa: E731
-                    y = civ["Y"]
+                    # a format that does not name the year at all starts at
+                    # the first year of the range
+                    y = civ["Y"] if (has("Y") or has("F")) else 0
                     if has("j"):
                         edate = ("o", (y, civ["j"]))
                     else:
@@ -323,7 +326,13 @@ def st_invert(draw, partial=False):
         return {"kind": "invert", "mode": mode, "p": kw, "fmt": fmt, "cfg": cfg}
     kw = draw(st_point(cm, dyadic_ok=False))
     date = draw(st.sampled_from(["ymd", "ymd", "F", "Yj"]))
-    if date == "ymd":
+    yearless = partial and draw(st.integers(0, 5)) == 0
+    if yearless:
+        # no year directive at all: month and day, day of the year, the day
+        # alone, or no date part
+        dpart = draw(st.sampled_from(["%m" + _sep(draw) + "%d", "%j", "%d", "",
+                                      "%m"]))
+    elif date == "ymd":
         order = draw(st.permutations(["%Y", "%m", "%d"]))
         if partial:
             keep = draw(st.sampled_from([1, 2, 3]))
@@ -354,7 +363,7 @@ def st_invert(draw, partial=False):
     zone = "%z"
     if partial and draw(st.booleans()):
         zone = ""
-    pieces = [x for x in (dpart, tpart, zone) if x]
+    pieces = [x for x in (dpart, tpart, zone) if x] or ["%H"]
     if not partial:
         pieces = list(draw(st.permutations(pieces)))
     fmt = pieces[0]
